@@ -97,6 +97,10 @@ Ltac is_closed_z z :=
   | Z.mul ?a ?b => is_closed_z a; is_closed_z b
   | Z.pow ?a ?b => is_closed_z a; is_closed_z b
   | Z.opp ?a => is_closed_z a
+  | Z.modulo ?a ?b => is_closed_z a; is_closed_z b
+  | Z.div ?a ?b => is_closed_z a; is_closed_z b
+  | Z.quot ?a ?b => is_closed_z a; is_closed_z b
+  | Z.rem ?a ?b => is_closed_z a; is_closed_z b
   | pow2 ?a => is_closed_z a
   | mask ?a => is_closed_z a
   end.
@@ -237,3 +241,33 @@ Proof.
   - intros. rewrite E.
     destruct (Z.sgn_spec x) as [[? ->]|[[? ->]|[? ->]]], (Z.sgn_spec y) as [[? ->]|[[? ->]|[? ->]]]; lia.
 Qed.
+
+(* closed shifts *)
+Ltac ev_res t :=
+  let v := eval vm_compute in t in
+  lazymatch v with
+  | Ok ?z => is_z_lit z
+  | UB _ => idtac
+  | Contract => idtac
+  end; change t with v in *.
+Ltac consts3 :=
+  consts2;
+  repeat match goal with
+         | |- context [shl ?t ?x ?k] => is_closed_ty t; is_closed_z x; is_closed_z k; ev_res (shl t x k)
+         | |- context [shr ?t ?x ?k] => is_closed_ty t; is_closed_z x; is_closed_z k; ev_res (shr t x k)
+         end.
+
+Lemma land_1_l d : Z.land 1 d = d mod 2.
+Proof. rewrite Z.land_comm. change 1 with (Z.ones 1). now rewrite Z.land_ones by lia. Qed.
+
+(* the general forward runner: evaluate closed parts, put conversions in mod-form, resolve one
+   arithmetic step or split one conditional, repeat *)
+Ltac run :=
+  repeat (cbn [rbind]; consts3;
+          rewrite ?wu_eq, ?ws_eq, ?cast_eq, ?land_1_l, ?Z.land_0_l by (cbn; lia);
+          widths; consts;
+          first [ arith_step; widths
+                | match goal with
+                  | |- context [if ?c then _ else _] => let E := fresh "E" in destruct c eqn:E
+                  end ]);
+  cbn [rbind]; widths.
